@@ -133,6 +133,7 @@ def main(argv):
             "message": f.get("msg"),
             "standalone": f.get("standalone"),
             "history_note": None if f.get("standalone") else "does not repeat alone in a fresh interpreter: an EARLIER input of the same child (stream %s, from index %s) damaged the interpreter" % (f.get("stream"), f.get("env_start")),
+            "history": f.get("history"),
             "per_entry_point": f.get("entries"),
             "cmd_zygo": f.get("cmd_zygo"),
             "inputs_with_same_class_and_site": f.get("count"),
